@@ -51,7 +51,7 @@ package pair
 //@   requires p != nil && p.session != nil
 //@   ensures err == nil && keyset(p.session) ==> proven(srpkey(p.session))
 //@   ensures err != nil ==> proof == nil
-//@   ensures err == nil ==> len(proof) > 0
+//@   ensures err == nil ==> len(proof) > 0 && fresh(proof) && seq(proof) == srp_M2(srpkey(p.session), seq(clientProof))
 
 //@ func (p *SetupServerSession) SetupEncryptionKey(salt, info) (err)
 //@   requires p != nil
@@ -69,16 +69,26 @@ package pair
 //@      ref(s.session.PrivateKey) != ref(s) && (s.step == 0 || s.step == 2 || s.step == 4 || s.step == 6) && (s.step == 4 ==> sessProven(s.session))
 //@ pred dbStep(d) = dbver(d) == old(dbver(d)) || (dbver(d) == old(dbver(d)) + 1 && storeOK(lastname(d), lastkey(d)))
 
+// The SRP instance of a pair-setup session, from the HAP specification: SRP-6a over the 3072-bit group of RFC 5054 with
+// SHA-512, user name "Pair-Setup", a 16-byte salt, x = H(s | H(I ":" P)) (the function KeyDerivativeFuncRFC2945 builds),
+// verifier computed from the setup code; the session's B and s are what M2 sends.
 //@ func NewSetupServerSession(username, pin) (s, err)
-//@   trusted
 //@   pure
 //@   ensures err == nil ==> fresh(s) && s.session != nil && s.PrivateKey == nil
 //@   ensures err != nil ==> s == nil
+//@   ensures keys: err == nil ==> seq(s.PublicKey) == srp_B(s.session) && seq(s.Salt) == srp_salt(s.session) && len(s.Salt) == 16 && seq(s.Username) == seq(username)
+//@   ensures params: err == nil ==> srp_group(srp_of(s.session)) == "rfc5054.3072" && srp_sha512(srp_of(s.session)) && srp_kdfIsHAP(srp_of(s.session)) && srp_user(s.session) == seq("Pair-Setup") &&
+//@        srp_sessverifier(s.session) == srp_verifier(srp_of(s.session), srp_salt(s.session), seq(pin))
 
 //@ func NewSetupServerController(device, database) (c, err)
 //@   requires device != nil && database != nil
 //@   ensures err == nil ==> fresh(c) && setupInv(c)
 //@   ensures err != nil ==> c == nil
+// the controller's SRP session is the HAP instance for user "Pair-Setup" with the verifier of the device's setup code, and
+// it introduces the accessory under the device's name
+//@   ensures srp: err == nil ==> srp_group(srp_of(c.session.session)) == "rfc5054.3072" && srp_sha512(srp_of(c.session.session)) && srp_kdfIsHAP(srp_of(c.session.session)) && srp_user(c.session.session) == seq("Pair-Setup") &&
+//@        srp_sessverifier(c.session.session) == srp_verifier(srp_of(c.session.session), srp_salt(c.session.session), seq(devpin(device))) &&
+//@        seq(c.session.PublicKey) == srp_B(c.session.session) && seq(c.session.Salt) == srp_salt(c.session.session) && len(c.session.Salt) == 16 && seq(c.session.Username) == seq(devname(device))
 
 //@ func (setup *SetupServerController) reset()
 //@   requires setup != nil
@@ -98,12 +108,20 @@ package pair
 //@   requires setupInv(setup) && in != nil && setup.step == 0
 //@   modifies setup.step
 //@   ensures setupInv(setup) && err == nil && out != nil
+// M2 (HAP pair-setup): State = 2, PublicKey = the SRP server key B, Salt = s, nothing else
+//@   ensures m2: cval(out, 6) == unit(2) && cval(out, 3) == seq(setup.session.PublicKey) && cval(out, 2) == seq(setup.session.Salt) && forall(t, 0, 256, t != 2 && t != 3 && t != 6 ==> cval(out, t) == empty())
 
 //@ func (setup *SetupServerController) handlePairVerify(in) (out, err)
 //@   requires setupInv(setup) && in != nil && setup.step == 2
 //@   modifies setup.step, *setup.session, srpkey(setup.session.session), keyset(setup.session.session)
 //@   ensures inv: setupInv(setup)
 //@   ensures answered: err == nil ==> out != nil
+// M4: State = 4 and either the server proof M2 for the accepted client proof (state advances), or Error = 2
+// (authentication) with no proof when the client proof - i.e. the setup code - is wrong (state back to waiting)
+//@   ensures m4state: err == nil ==> cval(out, 6) == unit(4) && (setup.step == 4 || setup.step == 0)
+//@   ensures m4ok: err == nil && setup.step == 4 ==> cval(out, 7) == empty() && cval(out, 4) == srp_M2(srpkey(setup.session.session), cval(in, 4))
+//@   ensures m4err: err == nil && setup.step == 0 ==> cval(out, 7) == unit(2) && cval(out, 4) == empty()
+//@   ensures m4only: err == nil ==> forall(t, 0, 256, t != 4 && t != 6 && t != 7 ==> cval(out, t) == empty())
 
 //@ func (setup *SetupServerController) handleKeyExchange(in) (out, err)
 //@   requires setupInv(setup) && in != nil && setup.step == 4
@@ -111,6 +129,19 @@ package pair
 //@   ensures inv: setupInv(setup)
 //@   ensures stored: dbStep(setup.database)
 //@   ensures answered: err == nil ==> out != nil
+// M6: State = 6 and either an error code, or EncryptedData = ChaCha20-Poly1305 under the session key K with nonce "PS-Msg06"
+// of the sub-TLV {Identifier: accessory name, PublicKey: accessory LTPK, Signature: Ed25519 under the accessory LTSK over
+// HKDF(S, "Pair-Setup-Accessory-Sign-Salt", "Pair-Setup-Accessory-Sign-Info") | name | LTPK} - stated as what the controller
+// computes: it opens the data (ciphertext | 16-byte tag) with K and that nonce and reads the three items.
+//@   let K = old(seq(setup.session.EncryptionKey))
+//@   let ct = sub(cval(out, 5), 0, len(cval(out, 5)) - 16)
+//@   let tg = sub(cval(out, 5), len(cval(out, 5)) - 16, len(cval(out, 5)))
+//@   let opened = aead_open(K, seq("PS-Msg06"), ct, tg, empty())
+//@   ensures m6state: err == nil ==> cval(out, 6) == unit(6)
+//@   ensures m6: err == nil && cval(out, 7) == empty() ==> len(cval(out, 5)) >= 16 && (K != dkey() ==> aead_ok(K, seq("PS-Msg06"), ct, tg, empty()) &&
+//@        tlvget(opened, 1) == seq(setup.session.Username) && tlvget(opened, 3) == devpub(setup.device) &&
+//@        tlvget(opened, 10) == ed25519_sign(devpriv(setup.device), cat(hkdf(old(seq(setup.session.PrivateKey)), seq("Pair-Setup-Accessory-Sign-Salt"), seq("Pair-Setup-Accessory-Sign-Info")), seq(setup.session.Username), devpub(setup.device))))
+//@   ensures m6only: err == nil ==> forall(t, 0, 256, t != 5 && t != 6 && t != 7 ==> cval(out, t) == empty())
 
 // ---------------------------------------------------------------- pair-verify session and controller (C03, C13)
 
@@ -166,6 +197,20 @@ package pair
 //@   modifies verify.step, *verify.session
 //@   ensures inv: verifyInv(verify)
 //@   ensures answered: err == nil ==> out != nil && ref(out) > 0 && len(cval(out, 6)) == 1 && seqat(cval(out, 6), 0) == 2
+// V2 (HAP pair-verify M2): State = 2, PublicKey = the accessory's Curve25519 key B, EncryptedData = ChaCha20-Poly1305 under
+// K = HKDF(X25519(b, A), "Pair-Verify-Encrypt-Salt", "Pair-Verify-Encrypt-Info") with nonce "PV-Msg02" of the sub-TLV
+// {Identifier: accessory name, Signature: Ed25519 under the accessory LTSK over B | name | A} - as the controller checks it
+//@   let A = old(cval(in, 3))
+//@   let B = seq(verify.session.PublicKey)
+//@   let K2 = hkdf(x25519(seq(verify.session.PrivateKey), A), seq("Pair-Verify-Encrypt-Salt"), seq("Pair-Verify-Encrypt-Info"))
+//@   let dev = devOf(verify.context)
+//@   let ct2 = sub(cval(out, 5), 0, len(cval(out, 5)) - 16)
+//@   let tg2 = sub(cval(out, 5), len(cval(out, 5)) - 16, len(cval(out, 5)))
+//@   let opened2 = aead_open(K2, seq("PV-Msg02"), ct2, tg2, empty())
+//@   ensures v2: err == nil ==> cval(out, 6) == unit(2) && cval(out, 3) == B && cval(out, 7) == empty() && len(cval(out, 5)) >= 16
+//@   ensures v2enc: err == nil && K2 != dkey() ==> aead_ok(K2, seq("PV-Msg02"), ct2, tg2, empty()) &&
+//@        tlvget(opened2, 1) == seq(devname(dev)) && tlvget(opened2, 10) == ed25519_sign(devpriv(dev), cat(B, seq(devname(dev)), A))
+//@   ensures v2only: err == nil ==> forall(t, 0, 256, t != 3 && t != 5 && t != 6 ==> cval(out, t) == empty())
 
 //@ func (verify *VerifyServerController) handlePairVerifyFinish(in) (out, err)
 //@   requires verifyInv(verify) && in != nil && verify.step == 2
@@ -173,6 +218,8 @@ package pair
 //@   ensures inv: verify.step == 0 || verify.step == 4
 //@   ensures answered: err == nil ==> out != nil && ref(out) > 0
 //@   ensures auth: err == nil && (len(cval(out, 7)) == 0 || seqat(cval(out, 7), 0) == 0) ==> authOK(seq(verify.session.SharedKey))
+// V4: State = 4 and nothing else, or State = 4 with Error = 2 (data does not open) / 4 (signature not from the stored key)
+//@   ensures v4: err == nil ==> cval(out, 6) == unit(4) && (cval(out, 7) == empty() || cval(out, 7) == unit(2) || cval(out, 7) == unit(4)) && forall(t, 0, 256, t != 6 && t != 7 ==> cval(out, t) == empty())
 
 // ---------------------------------------------------------------- pairings controller (C13)
 
